@@ -149,6 +149,19 @@ PROPS = {
         level_note='partial: expression / identifier / poetic-literal / function parsers, Display for ParseError(Location) and the '
                    'lexer line counter across match_loop are not under contract (DESIGN.md §5 C13)',
     ),
+    'C15': dict(
+        title='Renaming variables and re-casing names or keywords never changes behaviour',
+        verus=['sym_table', 'env'], kani=[],
+        technique=V + ' — PARTIAL (the per-call ingredient only): names are compared without regard to letter case on EVERY symbol-table '
+                      'path — lookup, mutable lookup and insertion all address the entry under the case-folded key (generic HashMap impl '
+                      'and the BTreeMap impl for proper names), one map per kind of name and the kind of the name alone picks the map, '
+                      'for all three kinds in variable, parameter and function position (SymTable / Environment functions). The property '
+                      'itself is a relation between the runs of TWO programs (original and renamed / re-cased): no function contract can '
+                      'state it, and it is not decided',
+        level_note='partial: to_lowercase itself (Unicode content, idempotence, injectivity on distinct spellings) is uninterpreted; '
+                   'match_keyword case folding, the parser name functions (parse_variable_name, parse_function, parse_function_call) and '
+                   'the invariance of whole runs under renaming are NOT decided (DESIGN.md §10.5)',
+    ),
     'C18': dict(
         title='Constant-assignment lint is exact and its suggested rewrite is equivalent',
         verus=['boring', 'folder'], kani=['c18_'],
@@ -163,8 +176,6 @@ NOT_APPLICABLE = {
     'C10': 'relational property over two executions / processes (hash-seed dependent iteration order): no function '
            'contract within reach of Verus or Kani can state or decide it; the one relevant site (join over '
            'dict.values()) is outside both tools\' subset (iterator adapters + fmt; pointer-carrying Val in CBMC)',
-    'C15': 'relation between runs of two different programs through lexer, parser and interpreter; the parser is out of '
-           'reach of both verifiers (closures capturing &mut self; Kani does not terminate on 3 input bytes)',
     'C20': 'process-level behaviour (argv, files, stdout/stderr, exit status, clap): neither verifier models a process '
            'boundary; cli/ is glue over print!/eprintln!',
 }
